@@ -15,7 +15,7 @@ EXPLANATION = (
     "consumes; (REFILL) LineBuffer::fill rolls before reading, ensures capacity before every read (a read into an "
     "empty window would be mistaken for EOF), marks everything as complete lines at EOF, and a new reader clears "
     "state; (NOPROGRESS) the forced quit is guarded by 'nothing consumed and nothing read'. All arithmetic of "
-    "rolling/growing and every fragmentation history are runtime quantities and are not decided.")
+    "rolling/growing and every fragmentation history are runtime quantities and are not decided. (INPUT) the CLI hands standard input to the incremental reader and files to Searcher::search_path in every printer arm.")
 NOT_DECIDED = ["all arithmetic of rolling / growing / line counting", "mmap equivalence", "every read fragmentation history"]
 
 CORE = "grep_searcher::searcher::core::Core"
